@@ -45,7 +45,7 @@ func TestC18Distribution(t *testing.T) {
 	st := StatsFor("C18")
 	rapid.Check(t, func(t *rapid.T) {
 		cfg := GenDistrCfg(t, c04Opts())
-		blocks := drawBlocks(t, 1, 5, 40)
+		blocks := drawBlocks(t, cfg, 1, 5, 40)
 		inflows := genInflows(t, cfg, blocks, 30)
 		events := 0
 		drawRolledBack(t, blocks)
